@@ -29,6 +29,10 @@ CHECKS = {
    "collision-rich histories under unique / unique-partial / unique-multikey / unique-compound indexes, index builds over existing data, key shifts, restarts; invariant on every committed catalog: no two documents share a key tuple under a unique index (independent key extractor); exactness: a call is rejected for uniqueness iff the model's final state would contain such a pair",
    SAMPLING + "index keys on top-level fields, embedded-document paths and arrays of scalars",
    "deterministic simulation: per-commit invariant monitor + reference model exactness"),
+ "C08": ("exploration", "9.8",
+   "histories of writes, failed writes, drops, restarts and injected store failures with randomised retention settings while simulated time advances by fractions of a second up to days and the wall clock steps forwards/backwards; at every commit S(k-1)->S(k) from the store seam: the log is the earlier log minus a prefix plus appended events, ids strictly increasing and never reused in the run, replaying the appended events onto S(k-1) reproduces S(k), update descriptions applied to the previous version give the new version up to field order, no event without change, retention safety (min size / min age) and progress (max size / max age) with a 1.5 s tolerance around age boundaries",
+   SAMPLING + "age clauses are evaluated with the log's own monotonic notion of time when the wall clock was stepped backwards; documented option defaults (100/1000, 5m/1h) are assumed when a plan leaves them unset",
+   "deterministic simulation: simulated clock + per-commit replay oracle over the recorded commit history"),
  "C15": ("exploration", "9.15",
    "histories of CRUD and index-management calls incl. partial-filter transitions and multikey arity changes, failed calls, restarts; invariant on every committed catalog: each index lists exactly the documents matching its partial filter, once, in key order, and equals an index rebuilt from scratch; index management (idempotent create, conflicting create fails, _id index never dropped) compared with the model",
    SAMPLING + "the rebuilt-from-scratch comparison uses lungo's own index builder on the same documents",
